@@ -316,6 +316,8 @@ def match_finding(findings, vkey):
 
 def write_replay(prop, section, fn, case, v, tier, seed):
     os.makedirs(os.path.join(VERIF, "out", "replay"), exist_ok=True)
+    if os.environ.get("VERIF_EVIDENCE_DIR"):
+        pass
     body = {"property": prop, "section": section, "fn": fn, "case": jsonable(case),
             "violation": jsonable(v), "tier": tier, "seed": seed}
     h = hashlib.sha1(json.dumps([fn, body["case"], v.get("key")], sort_keys=True).encode()).hexdigest()[:12]
@@ -382,8 +384,9 @@ def finish(ctx, evidence_extra=None):
     ev = {"property_id": ctx.prop, "tier": ctx.tier, "seed": ctx.seed, "level": "model_checking",
           "coverage": cov, "assumptions": ctx.assumptions, "wall_s": round(wall, 2),
           "violations": len(new)}
-    os.makedirs(os.path.join(VERIF, "evidence"), exist_ok=True)
-    evpath = os.path.join(VERIF, "evidence", ctx.prop + ".json")
+    evdir = os.environ.get("VERIF_EVIDENCE_DIR") or os.path.join(VERIF, "evidence")
+    os.makedirs(evdir, exist_ok=True)
+    evpath = os.path.join(evdir, ctx.prop + ".json")
     with open(evpath, "w") as f:
         json.dump(jsonable(ev), f, indent=1)
     ok_schema = validate_evidence(evpath)
